@@ -22,8 +22,16 @@ reports it; the translator never guesses):
   has_table(): for a concrete, non-computed, non-link-property pointer whose source has a table:
       get_pointer_storage_info(obj, resolve_type=False, schema=schema, link_bias=True) ... table_type == 'link'
 
+  the column-name rule, in BOTH _source_table_info (schema side) and _get_ptrref_storage_info (IR side):
+      <name var> = pointer.get_shortname(schema).name   |   ptrref.shortname.name
+      if <nexpr>: col_name = <name var>  else: col_name = str(pointer.id | ptrref.id)
+      <nexpr> ::= <name var>.startswith('__') | <name var> == 'id' | not/or/and
+      (any other test on the name -- e.g. startswith('_') -- is not recognised: fail closed)
+
 Emitted: Definitions over two booleans (singular, has_props):
     ptr_in_source, ptr_in_pointer, ref_in_source, ref_in_pointer : bool -> bool -> bool
+and over (dunder := name starts with '__', is_id := name == 'id'):
+    ptr_col_by_name, ref_col_by_name : bool -> bool -> bool     (true = the column is named after the pointer)
 """
 from __future__ import annotations
 
@@ -98,6 +106,42 @@ def _ref_leaf(node):
     return None
 
 
+def _name_leaf(var):
+    def leaf(node):
+        # <var>.startswith('__')  |  <var> == 'id'
+        if (isinstance(node, ast.Call) and isinstance(node.func, ast.Attribute) and node.func.attr == 'startswith'
+                and isinstance(node.func.value, ast.Name) and node.func.value.id == var
+                and len(node.args) == 1 and not node.keywords and isinstance(node.args[0], ast.Constant)
+                and node.args[0].value == '__'):
+            return 'dunder'
+        if (isinstance(node, ast.Compare) and isinstance(node.left, ast.Name) and node.left.id == var
+                and len(node.ops) == 1 and isinstance(node.ops[0], ast.Eq)
+                and isinstance(node.comparators[0], ast.Constant) and node.comparators[0].value == 'id'):
+            return 'is_id'
+        return None
+    return leaf
+
+
+def _col_rule(fn, var, name_src, id_src):
+    """find `<var> = <name_src>` followed by `if <nexpr>: col_name = <var> else: col_name = str(<id_src>)`"""
+    found = None
+    for n in ast.walk(fn):
+        body = getattr(n, 'body', None)
+        if not isinstance(body, list):
+            continue
+        for seq in (body, getattr(n, 'orelse', []) or []):
+            for a, b in zip(seq, seq[1:]):
+                if (isinstance(a, ast.Assign) and len(a.targets) == 1 and isinstance(a.targets[0], ast.Name)
+                        and a.targets[0].id == var and ast.unparse(a.value) == name_src and isinstance(b, ast.If)):
+                    found = b
+    _need(found is not None, f'{fn.name}: `{var} = {name_src}` followed by an if was not found')
+    _need(len(found.body) == 1 and ast.unparse(found.body[0]) == f'col_name = {var}',
+          f'{fn.name}: then-branch of the column-name rule is not `col_name = {var}`')
+    _need(len(found.orelse) == 1 and ast.unparse(found.orelse[0]) == f'col_name = str({id_src})',
+          f'{fn.name}: else-branch of the column-name rule is not `col_name = str({id_src})`')
+    return _bexpr(found.test, _name_leaf(var)), _span(found)
+
+
 def _single_return(fn, leaf, argnames):
     _need([a.arg for a in fn.args.args] == argnames, f'{fn.name}: parameters are not {argnames}')
     body = _strip_doc(fn.body)
@@ -140,6 +184,14 @@ def translate(repo):
           '_ptrref_storable_in_pointer: else branch is not a single return')
     e4 = _bexpr(iff.orelse[0].value, _ref_leaf)
     spans[f4.name] = _span(f4)
+
+    # the column-name rule on both sides
+    fs = _fn(mod, '_source_table_info')
+    e5, sp5 = _col_rule(fs, 'ptr_name', 'pointer.get_shortname(schema).name', 'pointer.id')
+    spans['_source_table_info.col_name'] = sp5
+    fr = _fn(mod, '_get_ptrref_storage_info')
+    e6, sp6 = _col_rule(fr, 'ptrname', 'ptrref.shortname.name', 'ptrref.id')
+    spans['_get_ptrref_storage_info.col_name'] = sp6
 
     # the decision chain of get_pointer_storage_info
     g = _fn(mod, 'get_pointer_storage_info')
@@ -209,12 +261,19 @@ def translate(repo):
         f'Definition ref_in_source (singular has_props : bool) : bool := {e3}.',
         f'Definition ref_in_pointer (singular has_props : bool) : bool := {e4}.',
         '',
+        '(* is the column in the source table named after the pointer (true) or after its id (false)?',
+        "   dunder := the short name starts with '__', is_id := the short name is 'id';",
+        '   _source_table_info (schema side) and _get_ptrref_storage_info (IR side) *)',
+        f'Definition ptr_col_by_name (dunder is_id : bool) : bool := {e5}.',
+        f'Definition ref_col_by_name (dunder is_id : bool) : bool := {e6}.',
+        '',
     ]
     manifest = {
         'source': path,
         'sha256': hashlib.sha256(src.encode()).hexdigest(),
         'spans': spans,
-        'emitted': {'ptr_in_source': e1, 'ptr_in_pointer': e2, 'ref_in_source': e3, 'ref_in_pointer': e4},
+        'emitted': {'ptr_in_source': e1, 'ptr_in_pointer': e2, 'ref_in_source': e3, 'ref_in_pointer': e4,
+                    'ptr_col_by_name': e5, 'ref_col_by_name': e6},
     }
     return '\n'.join(v), manifest
 
